@@ -32,6 +32,40 @@ const ZERO_COPY_THRESHOLD: usize = 1024;
 // While 4KB is better for other platforms (mainly amd64 linux).
 const ZERO_COPY_THRESHOLD: usize = 4 * 1024;
 
+/// Payloads up to this size are allocated up front when read from a stream.
+const ASYNC_EAGER_READ_LIMIT: usize = 4 * 1024;
+
+/// Reads exactly `len` bytes from `reader`.
+///
+/// `len` comes from the wire, so it is not trusted for the allocation: beyond
+/// [`ASYNC_EAGER_READ_LIMIT`] the buffer grows only as bytes actually arrive, and a
+/// stream that ends early is an error.
+pub(crate) async fn read_exact_bounded<R>(
+    reader: &mut R,
+    len: usize,
+) -> Result<Vec<u8>, ThriftException>
+where
+    R: tokio::io::AsyncRead + Unpin + Send,
+{
+    use tokio::io::AsyncReadExt;
+
+    if len <= ASYNC_EAGER_READ_LIMIT {
+        let mut v = vec![0; len];
+        reader.read_exact(&mut v).await?;
+        return Ok(v);
+    }
+    let mut v = Vec::with_capacity(ASYNC_EAGER_READ_LIMIT);
+    let n = reader.take(len as u64).read_to_end(&mut v).await?;
+    if n != len {
+        return Err(std::io::Error::new(
+            std::io::ErrorKind::UnexpectedEof,
+            "early eof while reading a length-prefixed payload",
+        )
+        .into());
+    }
+    Ok(v)
+}
+
 pub static VOID_IDENT: TStructIdentifier = TStructIdentifier { name: "void" };
 
 pub trait Message: Sized + Send {
